@@ -187,6 +187,11 @@ def proxydial_scenarios(ctx):
         for proto in ("HTTP/1.1", "HTTP/1.0"):
             hdrs = "" if verdict == "granted" or proto == "HTTP/1.0" else "Content-Length: 0\r\n"
             replies.append(("http", ("%s %s\r\n%s\r\n" % (proto, st, hdrs)).encode(), verdict))
+    # granting replies as real proxies send them: with header fields - among them lengths, which RFC 7231 4.3.6 tells the client
+    # to IGNORE on a 2xx answer to CONNECT (the tunnel starts right after the blank line, whatever the header claims)
+    for hdrs in ("Proxy-Agent: squid/5.7\r\n", "Content-Length: 0\r\n", "Content-Length: 4\r\n", "Content-Length: 100000\r\nVia: 1.1 p\r\n",
+                 "Transfer-Encoding: chunked\r\n", "Connection: close\r\n", "Connection: keep-alive\r\nKeep-Alive: timeout=5\r\n"):
+        replies.append(("http", ("HTTP/1.1 200 Connection established\r\n%s\r\n" % hdrs).encode(), "granted"))
     for bad in (b"garbage\r\n\r\n", b"HTTP/1.1 abc OK\r\n\r\n", b"SSH-2.0-OpenSSH_9.0\r\n\r\n", b"\x00\x5a\x00\x00\x00\x00\x00\x00\r\n\r\n", b"HTTP/1.1 200\r\nbroken header line\r\n\r\n"):
         replies.append(("http", bad, "malformed"))
     j = 0
@@ -218,6 +223,17 @@ def proxydial_scenarios(ctx):
         scen.append({"id": "pdreply%d" % j, "kind": "reply", "proxy": "socks4a", "user": "", "pass": "", "havepass": False, "dest": d, "destok": ok,
                      "reply": "005a000000000000", "hdrlen": 8, "verdict": "granted", "cuts": [], "eof": False})
         j += 1
+    # two overlapping dials of one dialer (different destinations): each request is the one for ITS destination
+    pairs = [("192.0.2.1:443", "198.51.100.9:8080"), ("10.0.0.1:1", "255.255.255.255:65535"), ("127.0.0.1:80", "127.0.0.1:81")]
+    for proxy in ("socks4a", "http"):
+        for hold in ("connect", "reply"):
+            for k, (d1, d2) in enumerate(pairs if not quick else pairs[:2]):
+                user, pw, havepw = users[(k + 1) % 4]
+                if proxy == "socks4a":
+                    havepw, pw = False, ""
+                scen.append({"id": "pdpair%d" % j, "kind": "pair", "proxy": proxy, "user": user, "pass": pw, "havepass": havepw, "dest": d1, "dest2": d2,
+                             "destok": True, "hold": hold, "style": k})
+                j += 1
     for proxy in ("socks4a", "http"):
         for k in ("connectfail", "writefail"):
             scen.append({"id": "pdreply%d" % j, "kind": "reply", "proxy": proxy, "user": "", "pass": "", "havepass": False, "dest": "192.0.2.7:443", "destok": True,
